@@ -180,3 +180,32 @@ Section Spawn.
     - cbn [snd events]. rewrite writes_app, RA, IH. now destruct (W [b] DSend) as [-> ->].
   Qed.
 End Spawn.
+
+(** the write loop loses nothing: what reached the descriptor, in order, followed by what is still to be written, is the
+    payload; with a schedule that keeps accepting something, everything is written *)
+Theorem write_all_conserves : forall accepts b, let '(ps, lft) := write_all accepts b in concat ps ++ lft = b.
+Proof.
+  induction accepts as [|a r IH]; intros b; cbn [write_all]; [reflexivity|].
+  set (k := match a with Some k => Nat.min k (length b) | None => 0%nat end).
+  destruct (skipn k b) as [|c rest] eqn:Es.
+  - assert (F : firstn k b = b) by (rewrite <- (firstn_skipn k b) at 2; rewrite Es; now rewrite app_nil_r).
+    destruct a as [k0|]; cbn [concat app].
+    + now rewrite F, !app_nil_r.
+    + unfold k in *. cbn in Es. now rewrite <- Es.
+  - specialize (IH (c :: rest)). destruct (write_all r (c :: rest)) as [ps lft].
+    destruct a as [k0|]; cbn [concat app].
+    + rewrite <- app_assoc, IH, <- Es. apply firstn_skipn.
+    + rewrite IH. unfold k in Es. cbn in Es. now rewrite <- Es.
+Qed.
+
+Theorem write_all_completes : forall accepts b, length b <= length (filter (fun a => match a with Some (S _) => true | _ => false end) accepts) ->
+  snd (write_all accepts b) = [].
+Proof.
+  induction accepts as [|a r IH]; intros b H; cbn [write_all].
+  - cbn in H. destruct b; [reflexivity | cbn in H; lia].
+  - set (k := match a with Some k => Nat.min k (length b) | None => 0%nat end).
+    destruct (skipn k b) as [|c rest] eqn:Es; [destruct a; reflexivity|].
+    assert (Hl : length (c :: rest) = length b - k) by (rewrite <- Es; apply skipn_length).
+    specialize (IH (c :: rest)). destruct (write_all r (c :: rest)) as [ps lft]. cbn [snd] in *.
+    apply IH. cbn [filter] in H. unfold k in Hl. destruct a as [[|k0]|]; cbn [length] in H, Hl; cbn [length]; lia.
+Qed.
